@@ -71,9 +71,10 @@ type vpCfg struct {
 }
 
 type vpCase struct {
-	Fam   string   `json:"fam"`
-	Cfg   vpCfg    `json:"cfg"`
-	Calls []vpCall `json:"calls"`
+	Fam     string   `json:"fam"`
+	Cfg     vpCfg    `json:"cfg"`
+	Cursor0 int64    `json:"cursor0"` // round-robin: cursor the instance starts from (0 = as constructed)
+	Calls   []vpCall `json:"calls"`
 }
 
 // ---------------------------------------------------------------- injected hash
@@ -146,6 +147,17 @@ func vpBuild(c vpCfg) Partitioner {
 		return NewCustomPartitioner(opts...)("t")
 	}
 	panic("unknown constructor " + c.Ctor)
+}
+
+// vpBuildCase builds the instance of a behaviour. A round-robin behaviour may start from a cursor other
+// than 0: the state after that many earlier calls (2^31 of them cannot be made in the quick tier) or after
+// calls with a larger partition count; the cursor field is set directly.
+func vpBuildCase(c vpCase) Partitioner {
+	p := vpBuild(c.Cfg)
+	if rr, ok := p.(*roundRobinPartitioner); ok && c.Cursor0 != 0 {
+		rr.partition = int32(c.Cursor0)
+	}
+	return p
 }
 
 func vpIsHash(c vpCfg) bool {
@@ -232,7 +244,13 @@ func vpRequires(p Partitioner, m *ProducerMessage) (res string) {
 }
 
 func vpResetFields(c vpCfg) kv {
-	return kv{"fam": "part", "ctor": c.Ctor, "abs": c.Abs, "hashfn": c.Hashfn, "fb": c.Fb}
+	return kv{"fam": "part", "ctor": c.Ctor, "abs": c.Abs, "hashfn": c.Hashfn, "fb": c.Fb, "cursor0": 0, "skipped": "0"}
+}
+
+func vpResetFieldsCase(c vpCase) kv {
+	f := vpResetFields(c.Cfg)
+	f["cursor0"] = c.Cursor0
+	return f
 }
 
 func vpCallFields(call vpCall, h int64, ret int32, errs string, sub bool, mrc string) kv {
@@ -298,7 +316,7 @@ func TestVerifPartitionerChild(t *testing.T) {
 		if err := json.Unmarshal([]byte(lines[ci]), &c); err != nil {
 			t.Fatalf("bad case: %v", err)
 		}
-		p := vpBuild(c.Cfg)
+		p := vpBuildCase(c)
 		for k, call := range c.Calls {
 			m, h := vpMessage(c.Cfg, call)
 			fmt.Fprintf(out, "B %d %d\n", ci, k)
@@ -649,11 +667,15 @@ func TestVerifPartitioner(t *testing.T) {
 	}
 
 	// --- in-process behaviours
+	npreset := 0
 	for _, c := range inproc {
-		rec.Reset(vpResetFields(c.Cfg))
+		rec.Reset(vpResetFieldsCase(c))
 		ninst++
 		byCtor[c.Cfg.Ctor]++
-		p := vpBuild(c.Cfg)
+		if c.Cursor0 != 0 {
+			npreset++
+		}
+		p := vpBuildCase(c)
 		for _, call := range c.Calls {
 			m, h := vpMessage(c.Cfg, call)
 			mrc := vpRequires(p, m)
@@ -664,6 +686,33 @@ func TestVerifPartitioner(t *testing.T) {
 			distinct[fmt.Sprintf("%v/%s/%d/%s/%d/%d", c.Cfg, call.Key.K, h, call.Key.Name, call.N, call.Part)] = true
 			if len(samples) < 4 && h < 0 && call.N > 2 {
 				samples = append(samples, kv{"cfg": c.Cfg, "call": f})
+			}
+		}
+	}
+
+	// --- thorough: the same round-robin machine without touching its state: 2^31 - 64 calls are made and not
+	// recorded, the 192 calls around the point where an int32 cursor would overflow are
+	nlong, nlongRuns := int64(0), 0
+	if vThorough() {
+		for _, n := range []int32{3, 16} {
+			p := NewRoundRobinPartitioner("t")
+			m := &ProducerMessage{Topic: "t"}
+			skip := int64(1)<<31 - 64
+			for i := int64(0); i < skip; i++ {
+				p.Partition(m, n)
+			}
+			nlong += skip
+			f := vpResetFields(vpCfg{Ctor: "roundrobin"})
+			f["skipped"] = strconv.FormatInt(skip, 10)
+			rec.Reset(f)
+			ninst++
+			nlongRuns++
+			byCtor["roundrobin"]++
+			for i := 0; i < 192; i++ {
+				call := vpCall{Key: vpKey{K: "nil"}, N: n, Xk: "range"}
+				ret, errs := vpCallSafely(p, m, n)
+				rec.Ev("call", vpCallFields(call, 0, ret, errs, false, vpRequires(p, m)))
+				ncalls++
 			}
 		}
 	}
@@ -705,7 +754,7 @@ func TestVerifPartitioner(t *testing.T) {
 				ndedup++
 				continue
 			}
-			rec.Reset(vpResetFields(c.Cfg))
+			rec.Reset(vpResetFieldsCase(c))
 			ninst++
 			nsub++
 			byCtor[c.Cfg.Ctor]++
@@ -730,7 +779,7 @@ func TestVerifPartitioner(t *testing.T) {
 	}
 	vWriteJSON(t, "part.summary.json", kv{"behaviours": ninst, "calls": ncalls, "in_subprocess": nsub,
 		"crashes": ncrash, "identical_crash_prefix_not_rerun": ndedup, "worker_processes": nspawn, "by_constructor": byCtor,
-		"distinct_calls": len(distinct), "pair_schedules": npairs, "pair_calls": npaircalls, "pair_calls_overlapping": novl,
+		"distinct_calls": len(distinct), "roundrobin_preset_cursor_behaviours": npreset, "roundrobin_unrecorded_calls_before_tail": nlong, "roundrobin_long_runs": nlongRuns, "pair_schedules": npairs, "pair_calls": npaircalls, "pair_calls_overlapping": novl,
 		"samples": samples})
 }
 
